@@ -113,11 +113,72 @@ def gen_cases(tier, seed):
                     continue
                 cid = "%s|%s|%s|%s|%s" % (pol, decl, cat, call, shape)
                 cases.append({"id": cid, "sig": [pol, decl, cat, call, shape], "policy": pol, "decl": decl, "cat": cat, "call": call, "shape": shape})
+    for pol in SEQ_POLICIES:
+        for k in range(3 if tier == "quick" else 20):
+            cases.append({"id": "sequence|%s|%d" % (pol, k), "sig": ["sequence", pol, k], "kind": "sequence", "policy": pol, "k": k,
+                          "len": 16 if tier == "quick" else 60})
     return cases
+
+
+SEQ_SPS = [
+    # (entity id, declaration, category layout)
+    ("https://sp-a.example.org/md", [("displayName", True, []), ("eduPersonPrincipalName", True, []), ("mail", True, []), ("givenName", False, [])], "coco"),
+    ("https://sp-b.example.org/md", [("mail", True, [])], "coco"),
+    ("https://sp-c.example.org/md", None, "refeds-rs"),
+    ("https://sp-d.example.org/md", [("givenName", True, []), ("eduPersonAffiliation", False, ["member"])], "none"),
+    ("https://sp-e.example.org/md", [("sn", True, [])], "swamid-re+hei"),
+]
+SEQ_POLICIES = ["ec-edugain", "ec-swamid", "ec-refeds+restr", "names-only", "regex", "release-all", "no-fail-on-missing", "regex-unanchored"]
 
 
 def setup_worker(ctx):
     ctx.fedcache = fed.Cache()
+
+
+def run_sequence(case, ctx):
+    """several SPs answered by ONE long-lived Server in a generated order: what one SP gets must not depend on who was answered before"""
+    to, fro = _to_map()
+    mds = []
+    for eid, decl, cat in SEQ_SPS:
+        requested = [(to[n], n, req, vals) for n, req, vals in decl] if decl is not None else None
+        mds.append(mdgen.entity({"eid": eid, "entity_categories": CATS[cat],
+                                 "sp": {"keys": [("signing", 1)], "acs": [(B_POST, eid.replace("/md", "/acs"), 1, True)], "requested": requested}}))
+    policy = {}
+    for who, spec in POLICIES[case["policy"]].items():
+        policy[who] = dict({"lifetime": {"minutes": 15}}, **spec)
+    idp = fed.make_idp(fed.idp_conf(policy=policy), mds)
+    rng = random.Random("%s/%s" % (ctx.seed, case["id"]))
+    viol, counters = [], {"sequence_steps": 0, "released_values_checked": 0, "unmet_requirement_cases": 0}
+    order = []
+    for step in range(case["len"]):
+        k = rng.randrange(len(SEQ_SPS))
+        eid, decl, cat = SEQ_SPS[k]
+        order.append(eid.split("//")[1].split(".")[0])
+        ident = base_identity(rng, rng.choice(["full", "sparse", "full"]))
+        try:
+            resp = idp.create_authn_response(dict((a, list(v)) for a, v in ident.items()), "id-req-%d" % step, eid.replace("/md", "/acs"), eid,
+                                             userid="u%d" % rng.randrange(3), authn=fed.AUTHN, sign_response=False, sign_assertion=False)
+        except Exception:
+            counters["idp_raised"] = counters.get("idp_raised", 0) + 1
+            continue
+        # judge against the reference for THIS SP alone
+        sub = {"policy": case["policy"], "decl": "__seq__", "cat": cat, "call": "authn", "shape": "seq"}
+        DECLS["__seq__"] = decl
+        r = judge(sub, ident, "%s" % resp, eid, prefix="[one Server answered %s] " % "->".join(order[-4:]))
+        counters["sequence_steps"] += 1
+        counters["released_values_checked"] += r["counters"].get("released_values_checked", 0)
+        counters["unmet_requirement_cases"] += r["counters"].get("unmet_requirement_cases", 0)
+        for v in r["violations"]:
+            v = dict(v)
+            v["key"] = v["key"] if "entitlement" not in v["key"] and "declaration" not in v["key"] else v["key"] + "-in-sequence"
+            viol.append(v)
+        if len(viol) > 4:
+            break
+    uniq = {}
+    for v in viol:
+        uniq.setdefault(v["key"], v)
+    return {"outcome": "violations" if viol else "sequence-held", "nontrivial": counters["sequence_steps"] > 0, "violations": list(uniq.values()),
+            "counters": counters, "evals": max(1, counters["sequence_steps"]), "sigs": [["sequence", case["policy"], case["k"]]]}
 
 
 def _idp(ctx, pol, decl, cat):
@@ -139,11 +200,11 @@ def _idp(ctx, pol, decl, cat):
     return ctx.fedcache.get("idp", [pol, decl, cat], build)
 
 
-def entitled(pol, cat, required_names):
+def entitled(pol, cat, required_names, eid=fed.SP_EID):
     """lower-case names the SP's categories entitle it to, or None when the policy entry has no entity_categories"""
-    spec = POLICIES[pol].get(fed.SP_EID) or POLICIES[pol]["default"]
+    spec = POLICIES[pol].get(eid) or POLICIES[pol]["default"]
     mods = spec.get("entity_categories")
-    if mods is None and fed.SP_EID in POLICIES[pol]:
+    if mods is None and eid in POLICIES[pol]:
         mods = POLICIES[pol]["default"].get("entity_categories")
     if not mods:
         return None
@@ -166,11 +227,11 @@ def entitled(pol, cat, required_names):
     return out
 
 
-def restrictions(pol):
+def restrictions(pol, eid=fed.SP_EID):
     """applicable attribute_restrictions: the per-SP entry's if it has the key, else the default's"""
     p = POLICIES[pol]
-    if fed.SP_EID in p and "attribute_restrictions" in p[fed.SP_EID]:
-        r = p[fed.SP_EID]["attribute_restrictions"]
+    if eid in p and "attribute_restrictions" in p[eid]:
+        r = p[eid]["attribute_restrictions"]
     else:
         r = p["default"].get("attribute_restrictions")
     if not r:
@@ -193,6 +254,8 @@ def read_response(xml):
 
 
 def run_case(case, ctx):
+    if case.get("kind") == "sequence":
+        return run_sequence(case, ctx)
     idp = _idp(ctx, case["policy"], case["decl"], case["cat"])
     rng = random.Random("%s/%s" % (ctx.seed, case["id"]))
     ident = base_identity(rng, case["shape"])
@@ -207,11 +270,15 @@ def run_case(case, ctx):
         exc = None
     except Exception as e:
         xml, exc = None, e
-    viol = []
     if xml is None:
         # raising is a refusal: nothing was released
         return {"outcome": "raised:" + type(exc).__name__, "nontrivial": False, "violations": [], "counters": {"idp_raised": 1},
                 "obs": {"exception": repr(exc)[:200]}}
+    return judge(case, ident, xml, fed.SP_EID)
+
+
+def judge(case, ident, xml, eid, prefix=""):
+    viol = []
     status, released, n_enc = read_response(xml)
     success = status == "urn:oasis:names:tc:SAML:2.0:status:Success"
     lident = {}
@@ -219,8 +286,8 @@ def run_case(case, ctx):
         lident.setdefault(k.lower(), set()).update(v)
     decl = DECLS[case["decl"]]
     required_names = set(n.lower() for n, req, vals in (decl or []) if req)
-    ent = entitled(case["policy"], case["cat"], required_names)
-    restr = restrictions(case["policy"])
+    ent = entitled(case["policy"], case["cat"], required_names, eid)
+    restr = restrictions(case["policy"], eid)
     declared = {n.lower(): set(vals) for n, req, vals in (decl or [])} if decl is not None else None
     rules = []
     if ent is not None:
@@ -229,7 +296,7 @@ def run_case(case, ctx):
         rules.append("attribute-restrictions")
     if declared is not None and ent is None:
         rules.append("sp-declaration")
-    desc = "policy=%s declaration=%s categories=%s call=%s identity=%s status=%s" % (
+    desc = prefix + "policy=%s declaration=%s categories=%s call=%s identity=%s status=%s" % (
         case["policy"], case["decl"], case["cat"], case["call"], case["shape"], (status or "").split(":")[-1])
     if not success and released:
         viol.append({"key": "C07/error-response-carries-attributes", "what": desc + " released %r" % [r[0] for r in released]})
